@@ -671,12 +671,13 @@ def _handle_binop(node: ast.BinOp, ctx: Context) -> sympy.Expr:
 
 
 def _get_inner_object(obj: object, levels: list[str]) -> sympy.Float | None:
-    # Check if object is instantiated, otherwise instantiate first
-    if isinstance(obj, type):
-        obj = obj()
-
     for level in levels:
         _LOGGER.debug("obj %s, level %s", obj, level)
+        # `Cls.attr` is the class attribute; only an attribute that exists on
+        # instances alone (e.g. a dataclass field with a default_factory) is
+        # read from an instance
+        if isinstance(obj, type) and not hasattr(obj, level):
+            obj = obj()
         obj = getattr(obj, level, None)
 
     if obj is None:
